@@ -88,3 +88,40 @@ def _mk(shape, tag):
 _mk((1,), "mono")
 _mk((2,), "stereo-interleaved")
 _mk((1, 1), "left-right")
+
+
+# ================================================================================================== export_wav (C04)
+# One output file per call: opened at the given path in mode "wb" (created or TRUNCATED - nothing of an older, longer file of the same
+# name survives), built into exactly once from the given sample, and whatever the builder raises is passed on (no second attempt into
+# the half-written stream).
+@contract("builtins:open#binary-write", abstract=True, assumed=True, note="open(path, 'wb'): a fresh, empty binary file object at that path (io semantics of mode 'wb')")
+def _open_wb(c):
+    c.param("file_path", "str")
+    c.param("mode", "str")
+    c.returns(("obj", "BinaryFile", {"path": "str", "mode": "str", "builds": "int", "built_from": ("obj", "NothingYet", {})}))
+    c.ensures("result.path == file_path and result.mode == mode and result.builds == 0")
+    c.modifies()
+
+
+@contract("construct:WavSampleBuilder.build_stream", abstract=True, assumed=True,
+          note="Construct.build_stream(obj, stream): writes the built bytes to the stream (WavSampleAdapter._encode and the RiffStruct declaration are under contract / "
+               "layout obligations of their own); may raise a ConstructError (e.g. FormatFieldError for a field value that does not fit)")
+def _build_stream(c):
+    c.param("sample", ("obj", "smpl_extract.generalized.sample:Sample", {}))
+    c.param("stream", ("obj", "BinaryFile", {"path": "str", "mode": "str", "builds": "int", "built_from": ("drop",)}))
+    c.raises("ConstructError")
+    c.raises("FormatFieldError")           # the subclass a caller might be tempted to single out
+    c.ensures("stream.builds == old(stream.builds) + 1 and stream.built_from is sample")
+    c.ensures_on_raise("ConstructError", "stream.builds == old(stream.builds) + 1")          # an attempt counts, finished or not
+    c.modifies("stream.builds", "stream.built_from")
+
+
+@contract(W + "export_wav", props=["C04", "C01", "C06"])
+def _export_wav(c):
+    c.param("sample", ("obj", "smpl_extract.generalized.sample:Sample", {"midi_note": ("drop",), "pitch_offset_semi": ("drop",), "pitch_offset_cents": ("drop",)}))
+    c.param("file_path", "str")
+    c.abstract_calls = {"open": "builtins:open#binary-write", "WavSampleBuilder.build_stream": "construct:WavSampleBuilder.build_stream"}
+    c.raises("ConstructError")
+    c.ensures("export_stream.path == file_path and export_stream.mode == 'wb'", "the-file-at-the-given-path-opened-truncating")
+    c.ensures("export_stream.builds == 1 and export_stream.built_from is sample", "built-exactly-once-from-the-given-sample")
+    c.ensures_on_raise("ConstructError", "export_stream.builds == 1", "a-failed-build-is-not-retried-into-the-same-file")
